@@ -142,12 +142,10 @@ def Ord3.cmpNat (a b : Nat) : Ord3 := if a < b then .lt else if b < a then .gt e
 
 /-- `constant::operator<` (non-null domains). -/
 def cstLt (cfg : Cfg) (v1 : ZInt) (d1 : Dom) (v2 : ZInt) (d2 : Dom) : Bool :=
-  if d1 = d2 then ZInt.lt v1 v2
-  else
-    let c1 := d1.cls v1
-    let c2 := d2.cls v2
-    if c1 = c2 then ZInt.lt v1 v2
-    else decide (cfg.domRank c1 < cfg.domRank c2)
+  let c1 := d1.cls v1
+  let c2 := d2.cls v2
+  if c1 = c2 then ZInt.lt v1 v2
+  else decide (cfg.domRank c1 < cfg.domRank c2)
 
 /-- `compare (a, b)` of value.hh on constants -/
 def cstCmp (cfg : Cfg) (v1 : ZInt) (d1 : Dom) (v2 : ZInt) (d2 : Dom) : Ord3 :=
